@@ -183,13 +183,21 @@ class C11(Property):
             ctx.require(a.data.tobytes() == snap_a and b.data.tobytes() == snap_b, "operand-modified:compiled", "compiled merge modified an operand")
             ctx.require(rel_close(r3._data_array, r1._data_array, 1e-13, np.maximum(np.abs(r1._data_array), scale)), "paths-differ:compiled", f"compiled {r3} vs python {r1}")
             # in-place
-            a2, b2 = a.copy(), b.copy()
+            # the in-place merge is applied to a droplet of the same provenance as `a` (not to a fresh copy of it), and the flag is
+            # handed over in one of its equivalent true forms
+            a2, b2 = self._make(cls, ds[0]), self._make(cls, ds[1])
+            flag = [True, np.True_, 1, np.bool_(True)][int(1000 * abs(ra + rb)) % 4]
+            a3, b3 = self._make(cls, ds[0]), self._make(cls, ds[1])
+            ret3 = a3.merge(b3, inplace=flag)  # directly on the droplets as they come, before anything else touches them
+            ctx.require(ret3 is a3, "inplace-return", f"merge(inplace={flag!r}) did not return self")
+            ctx.require(rel_close(a3._data_array, r1._data_array, 1e-13, np.maximum(np.abs(r1._data_array), scale)), "paths-differ:inplace-direct", f"inplace {a3} vs out-of-place {r1}")
+            ctx.require(b3.data.tobytes() == snap_b, "operand-modified:inplace-other", "merge(inplace=True) modified `other`")
             from droplets import Emulsion
 
             em_link = Emulsion([a2, b2], copy=False)
             linked = em_link.get_linked_data()  # documented: entries of this array mirror the droplets' data
-            ret = a2.merge(b2, inplace=True)
-            ctx.require(ret is a2, "inplace-return", "merge(inplace=True) did not return self")
+            ret = a2.merge(b2, inplace=flag)
+            ctx.require(ret is a2, "inplace-return", f"merge(inplace={flag!r}) did not return self")
             # in place means in the droplet's own record: an array linked to the droplet before the merge still mirrors it, and a
             # value written into the array afterwards reaches the droplet
             ctx.require(linked[0].tobytes() == a2.data.tobytes(), "inplace:link-broken", f"after merge(inplace=True) the linked data row {linked[0]} no longer mirrors the droplet {a2}")
